@@ -3,7 +3,7 @@
 //! request bytes are written verbatim, so malformed requests can be sent.
 use clap::Parser;
 use std::io::{Read, Write};
-use std::net::{Shutdown, TcpListener, TcpStream};
+use std::net::{Shutdown, TcpStream};
 use std::path::Path;
 use std::sync::OnceLock;
 use std::time::{Duration, Instant};
@@ -280,20 +280,44 @@ impl Default for ServerCfg {
   }
 }
 
+/// Ports for the in-process servers come from a process-wide counter over a range BELOW the
+/// kernel's ephemeral range.  (Picking a port with `bind(0)` and releasing it is unsafe here:
+/// between the release and the server's own bind, a readiness probe `connect()` to that port
+/// can be given the very same number as its source port and connect *to itself* — TCP
+/// simultaneous open — so "something accepts on the port" was reported before the server had
+/// bound it; the start lock was released, the next `bind(0)` of another worker returned the
+/// same still-unbound number, and two cases ended up talking to one server.)
+fn next_port() -> u16 {
+  static NEXT: std::sync::atomic::AtomicU32 = std::sync::atomic::AtomicU32::new(0);
+  let low: u32 = std::fs::read_to_string("/proc/sys/net/ipv4/ip_local_port_range")
+    .ok()
+    .and_then(|t| t.split_whitespace().next().and_then(|x| x.parse().ok()))
+    .unwrap_or(32768);
+  let base: u32 = 12000;
+  let span = low.saturating_sub(base + 1).max(1000);
+  let n = NEXT.fetch_add(1, std::sync::atomic::Ordering::SeqCst);
+  (base + (std::process::id().wrapping_mul(7919).wrapping_add(n)) % span) as u16
+}
+
+fn port_refuses(port: u16) -> bool {
+  TcpStream::connect_timeout(&format!("127.0.0.1:{port}").parse().unwrap(), Duration::from_millis(200)).is_err()
+}
+
 impl Server {
-  /// start `searchlite_http::run` on a free loopback port and wait until it accepts
+  /// start `searchlite_http::run` on a loopback port of our own and wait until *this* server
+  /// answers `/healthz`
   pub fn start(index: &Path, cfg: &ServerCfg) -> Result<Server, String> {
-    // Ports are picked by binding port 0 and releasing it; serialise server start-up inside this
-    // process so that two cases can never be handed the same port (a case must not talk to
-    // another case's server).
+    // one start-up at a time inside this process
     static START: std::sync::Mutex<()> = std::sync::Mutex::new(());
     let _starting = START.lock().unwrap_or_else(|e| e.into_inner());
     let mut last = String::new();
-    for _attempt in 0..8 {
-      let port = {
-        let l = TcpListener::bind("127.0.0.1:0").map_err(|e| e.to_string())?;
-        l.local_addr().map_err(|e| e.to_string())?.port()
-      };
+    for _attempt in 0..40 {
+      let port = next_port();
+      // somebody else (another process) is listening there already: take the next one
+      if !port_refuses(port) {
+        last = format!("port {port} is taken");
+        continue;
+      }
       let mut argv: Vec<String> = vec![
         "searchlite-http".into(),
         "--index".into(),
@@ -324,8 +348,15 @@ impl Server {
         if task.is_finished() {
           break;
         }
-        if TcpStream::connect_timeout(&format!("127.0.0.1:{port}").parse().unwrap(), Duration::from_millis(200)).is_ok() {
-          up = true;
+        // a real HTTP answer, not just an accepted connection
+        let r = exchange(port, &SendPlan { first: request_bytes("GET", "/healthz", &[], b"", None), wait_ms: 2000, ..Default::default() });
+        if r.status == Some(200) {
+          // a failed bind ends `run` at once: give it a moment, then make sure the answer came
+          // from our own task
+          std::thread::sleep(Duration::from_millis(20));
+          if !task.is_finished() {
+            up = true;
+          }
           break;
         }
         std::thread::sleep(Duration::from_millis(5));
@@ -344,7 +375,7 @@ impl Server {
         }
       } else {
         task.abort();
-        last = "server did not start accepting within 60 s".into();
+        last = "server did not answer /healthz within 60 s".into();
       }
     }
     Err(last)
@@ -357,7 +388,16 @@ impl Server {
 }
 
 impl Drop for Server {
+  /// synchronous stop: the accept task is gone and the port refuses connections before
+  /// anything else (a CLI process, an FFI handle, the next server) touches the directory
   fn drop(&mut self) {
     self.task.abort();
+    let t0 = Instant::now();
+    while !self.task.is_finished() && t0.elapsed() < Duration::from_secs(10) {
+      std::thread::sleep(Duration::from_millis(2));
+    }
+    while !port_refuses(self.port) && t0.elapsed() < Duration::from_secs(10) {
+      std::thread::sleep(Duration::from_millis(5));
+    }
   }
 }
